@@ -8,6 +8,13 @@ pub fn read_type(src: &mut &[u8]) -> Result<Option<Type>, DecodeError> {
     let mut len = usize::from(encoding >> 4);
 
     if len == 0x0f {
+        // § 6.3.3 "Type encoding" (2024-10-09): the overflowing length is a single typed integer.
+        // The length of the length itself therefore cannot overflow. This also bounds the
+        // recursion through `read_value`.
+        if src.first().is_some_and(|b| b >> 4 == 0x0f) {
+            return Err(DecodeError::InvalidLengthValue);
+        }
+
         let value = read_value(src).map_err(|e| DecodeError::InvalidValue(Box::new(e)))?;
 
         len = match value.and_then(|v| v.as_int()) {
